@@ -82,9 +82,9 @@ PROPS = {
         "The only permitted differences are the BREAK text and the column reset it forces (programs printing POS are exempt from the interrupt oracle).",
         ["ses", "find-c13"], RULE_PROG),
     "C14": _p(
-        "F decides: on the real interpreter every RENUM either fails leaving the listing unchanged, or yields the numbering law (lines below old-start kept, others new, new+step, ...), every written line-number operand (GOTO, GOSUB, THEN/ELSE, ON lists, RESTORE, RUN, LIST, DELETE) mapped and nothing else changed (ASTs compared up to columns), and identical behaviour up to line numbers. Theorems cover the numbering plan of the model.",
-        "Partial: the per-line rewriting (Line::renum) is not yet in the Lean model; it is decided by the oracle on the implementation only.",
-        ["find-c14"], RULE_PROG, partial="Line::renum not modelled in Lean yet"),
+        "Theorems on the model of Line::renum / Listing::renum: an unparsable line is returned untouched, a line without operands in the change map keeps its tokens, the line's own number is mapped, the visitor collects exactly the written line-number operands (GOTO, GOSUB, THEN/ELSE, ON lists, RESTORE, RUN, LIST, DELETE; sentinels and open range bounds skipped) and the result is the re-lexing of the listed text with those operands replaced by character position; numbering plan facts (kept below old-start, new, new+step ... strictly increasing, <= 65529, step 0 and overflow rejected, errors change nothing) are proved under C15. K: lex-renum (real Line::renum vs model on every referencing form x random change maps), lst-renum, sessions containing RENUM with state lockstep. F: on the real interpreter every RENUM either fails leaving the listing unchanged or satisfies the numbering law, rewrites every written operand and nothing else (ASTs compared up to columns) and preserves behaviour up to line numbers.",
+        "Partial: 'behaves identically' is decided by the oracle on the implementation (and by C20's relocation lemmas), not by a composed theorem.",
+        ["lex-renum", "lst-renum", "hist", "find-c14"], RULE_PROG, partial="renum_behaviour theorem not composed"),
     "C15": _p(
         "Theorems: the sorted association list refines the map LineNumber -> Line: insert/replace, delete (absent = no-op), range delete removes exactly the keys in the inclusive range, iterating listLine emits exactly the lines in range in ascending order and terminates, numbering facts of the RENUM plan, error returns leave the listing unchanged. K: exhaustive edit/list/delete histories over {0,5,10,65529} up to the length bound plus random long histories. F: abstract map vs the real Listing.",
         "Trusted: Lean kernel, sorted-list model of BTreeMap, correspondence.",
